@@ -38,6 +38,9 @@ type c07Case struct {
 	ArmSkip  int    `json:"arm_skip,omitempty"`
 	ArmD     int64  `json:"arm_d,omitempty"`
 	ArmBurst int    `json:"arm_burst,omitempty"`
+	// Hold0: "local" = the peer is configured with hold time 0, "remote" = the remote's
+	// OPENs propose 0: no session timers, the collision rules are the same
+	Hold0 string `json:"hold0,omitempty"`
 }
 
 func (c c07Case) burstOf(ev string) int {
@@ -104,9 +107,16 @@ func c07Prop(t *testing.T, r *hx.Run, sub string) func(c c07Case) hx.Verdict {
 		}
 		v := hx.Verdict{Class: fmt.Sprintf("collision=%v/%s/%s/prelude=%v", collision, dom, second, c.Prelude != "")}
 		if collision {
-			v.NT = fmt.Sprintf("%s/%s/%d/%d/%v/%v/%s", c.LocalID, c.RemoteID, c.LocalAS, c.RemoteAS, c.Bursts, c.Delays, c.Prelude) + fmt.Sprintf("/%s/%d/%d/%d", c.ArmPoint, c.ArmSkip, c.ArmD, c.ArmBurst)
+			v.NT = fmt.Sprintf("%s/%s/%d/%d/%v/%v/%s", c.LocalID, c.RemoteID, c.LocalAS, c.RemoteAS, c.Bursts, c.Delays, c.Prelude) + fmt.Sprintf("/%s/%d/%d/%d", c.ArmPoint, c.ArmSkip, c.ArmD, c.ArmBurst) + c.Hold0
 		}
 		p := world.PeerSpec{Remote: "10.0.0.2", LocalAS: c.LocalAS, RemoteAS: c.RemoteAS, Hold: 90}
+		rhold := uint16(90)
+		switch c.Hold0 {
+		case "local":
+			p.Hold = 0
+		case "remote":
+			rhold = 0
+		}
 		remoteID := ipToU32(c.RemoteID)
 		var dev *hx.Dev
 		fail := func(key, f string, a ...any) {
@@ -156,7 +166,7 @@ func c07Prop(t *testing.T, r *hx.Run, sub string) func(c c07Case) hx.Verdict {
 					pc.RemoteReset()
 				case "ceased-in-oc", "closed-in-oc":
 					// the earlier inbound connection got as far as OpenConfirm
-					pc.RemoteSend(world.RemoteOpen(p, pc, 90, remoteID).Frame(), nil)
+					pc.RemoteSend(world.RemoteOpen(p, pc, rhold, remoteID).Frame(), nil)
 					w.Settle()
 					if c.Prelude == "ceased-in-oc" {
 						pc.RemoteSend(wire.Notif{Code: 6, Sub: 2}.Frame(), nil)
@@ -184,7 +194,7 @@ func c07Prop(t *testing.T, r *hx.Run, sub string) func(c c07Case) hx.Verdict {
 						conns["in"] = w.Inbound(p.Remote, "10.0.0.1")
 					case "OO", "OI":
 						if cn := conns[c07Target[ev]]; cn != nil {
-							cn.RemoteSend(world.RemoteOpen(p, cn, 90, remoteID).Frame(), nil)
+							cn.RemoteSend(world.RemoteOpen(p, cn, rhold, remoteID).Frame(), nil)
 						}
 					case "KO", "KI":
 						if cn := conns[c07Target[ev]]; cn != nil {
@@ -416,6 +426,19 @@ func TestC07(t *testing.T) {
 		}
 	}), c07Prop(t, r, "all_orders_after_aborted_inbound"))
 
+	// every arrival order with a negotiated hold time of 0
+	hx.Enum(r, t, "all_orders_hold_zero", int64(len(orders)*2*2), iter.Seq[c07Case](func(yield func(c07Case) bool) {
+		for _, ord := range orders {
+			for _, cfg := range []c07Cfg{c07Cfgs[0], c07Cfgs[2]} {
+				for _, h0 := range []string{"local", "remote"} {
+					if !yield(c07Case{LocalID: cfg.lid, RemoteID: cfg.rid, LocalAS: cfg.las, RemoteAS: cfg.ras, Bursts: ord, Hold0: h0}) {
+						return
+					}
+				}
+			}
+		}
+	}), c07Prop(t, r, "all_orders_hold_zero"))
+
 	// "one connection becomes Established before the other has finished its OPEN exchange":
 	// the inbound connection arrives in the very burst that takes the outbound one to Established
 	// (or the other way round), with the just-created FSM / the peer manager held for a while
@@ -503,6 +526,7 @@ func TestC07(t *testing.T) {
 			c.Delays = append(c.Delays, rapid.Int64Range(0, 3).Draw(rt, "delay"))
 		}
 		c.Prelude = pick(rt, "prelude", "", "", "aborted-in", "reset-in", "ceased-in-oc", "closed-in-oc")
+		c.Hold0 = pick(rt, "hold0", "", "", "", "local", "remote")
 		if rapid.Bool().Draw(rt, "arm") {
 			c.ArmPoint = pick(rt, "armpoint", "fsm.transition", "fsm.transition", "peer.loop", "peer.collision")
 			c.ArmSkip = rapid.IntRange(0, 4).Draw(rt, "armskip")
